@@ -183,7 +183,7 @@ def r13_1_2_4(chk):
                 "the direction flag is not True exactly under `all differences >= 0` and False under `all <= 0`",
                 comp.where)
     rets = [t for _, t in return_alternatives(cs)]
-    chk.require(len(rets) >= 3 and all(t[0] == "tuple" and len(t[1]) == 2 for t in rets), "R13.4",
+    chk.require(len(rets) >= 1 and all(t[0] == "tuple" and len(t[1]) == 2 for t in rets), "R13.4",
                 "helper-returns-(spacing,direction)", f"helper returns {[pp(t)[:40] for t in rets[:4]]}", comp.where)
 
 
@@ -238,12 +238,15 @@ def r13_5_6_spacing(chk):
     def relative_test(l):
         return contains(l, lambda x: x[0] == "cmp" and x[1] in ("<", "<=") and x[3][0] == "const"
                         and isinstance(x[3][1], float) and contains(x[2], lambda y: y[0] == "bin" and y[1] == "/"))
-    uniform = [c for c, t in return_alternatives(cs) if t[0] == "tuple" and len(t[1]) == 2 and t[1][0] != NONE
-               and any(relative_test(l) and l[0] != "not" for l in c)]
+    # the spacing component of every return, with the conditions it is the value under (each component of the pair may
+    # be a conditional of its own when it is computed by a helper)
+    spacings = [(tuple(c) + tuple(c2), sp) for c, t in return_alternatives(cs) if t[0] == "tuple" and len(t[1]) == 2
+                for c2, sp in alternatives(t[1][0])]
+    uniform = [c for c, sp in spacings if sp != NONE and any(relative_test(l) and l[0] != "not" for l in c)]
     chk.require(bool(close) or bool(uniform), "R13.6", "relative-tolerance-test-present",
                 "the documented relative tolerance test (squared relative deviation from the median < 0.001) no longer "
                 "decides when a non-constant spacing is reported", comp.where)
-    zero = [c for c, t in return_alternatives(cs) if t[0] == "tuple" and len(t[1]) == 2 and t[1][0] == NONE and
+    zero = [c for c, sp in spacings if sp == NONE and
             any(l[0] == "cmp" and l[1] == "==" and l[3] in (K(0), K(0.0)) for l in c)]
     chk.require(bool(zero) or bool(close), "R13.6", "zero-median-guard", "division by a zero median is not guarded",
                 comp.where, nontrivial=False)
